@@ -123,6 +123,38 @@ def verify_unit(template, repo_root, workdir, unit_name):
     open(path, 'w').write(text)
     res, diags, wall, cmd, stderr = run_verus(path)
     fails, front = classify(diags, text, table)
+    # rule A4: an extracted function may come to use a plain constant of ITS OWN source file that the unit did not extract (a refactoring
+    # that names a literal).  Such a constant is pulled in mechanically (same text, visibility raised) and the unit is re-run once.
+    missing = sorted(set(re.findall(r'cannot find value `([A-Z][A-Z0-9_]*)` in this scope', ' '.join(f['msg'] for f in front))))
+    if missing:
+        from extract import Extractor
+        from rustlex import ExtractError as _EE
+        ex = Extractor(repo_root)
+        files = sorted(set(r['file'] for r in records if r.get('kind') == 'fn'))
+        extra, found = [], []
+        for nm in missing:
+            for rel in files:
+                try:
+                    segs, S = ex.item(rel, 'const', nm, {'vis': 'pub'})
+                except (_EE, Exception):
+                    continue
+                extra.append(''.join(sg.text for sg in segs))
+                found.append((nm, rel))
+                break
+        if len(found) == len(missing):
+            hdr = '\n'.join(extra)
+            text2 = text.replace('verus! {\n', 'verus! {\n// rule A4: constants of the extracted functions\' own source files, pulled in on demand\n' + hdr + '\n', 1)
+            shift = text2.count('\n') - text.count('\n')
+            first = text.split('\n').index('verus! {') + 1
+            table = table[:first] + [dict(kind='tmpl', line=0)] * shift + table[first:]
+            text = text2
+            records = records + ex.records
+            for r in ex.records:
+                r['rules'] = list(r.get('rules', [])) + [('A4', 'same-file constant pulled in on demand', '')]
+            open(path, 'w').write(text)
+            res, diags, wall2, cmd, stderr = run_verus(path)
+            wall += wall2
+            fails, front = classify(diags, text, table)
     if res is None:
         raise Undecided(f'verus produced no JSON for {unit_name}: {stderr[-2000:]}')
     vr = res['verification-results']
